@@ -69,8 +69,8 @@ CLAIMS = {
         ref="§7 C16", note=TB + " serde's StrDeserializer plumbing and HashMap are abstracted (lookups by key); BufRead::lines modelled by `lines`.",
         technique="Coq proof (loop = declarative block grouping, all-or-nothing) + model/implementation differential correspondence"),
     "C17": dict(
-        text="PARTIAL (stack depth, memory, wall-clock are runtime effects). Every unwrap/expect/index/slice of the anchored code is a Panic branch of the model under the same guard and every data-dependent loop runs on fuel; Coq theorems show for EVERY input a value or a reported error - never Panic, never OutOfFuel - for the version tokeniser, Dewey::new, glob compile, Pattern::new, compile+match (recursion depth = number of '{'), best_match, Depend::new, pkg_summary parsing, all Summary call sequences and getters, PLIST entry and list parsing; the remaining models (distinfo, digest names, scanindex, metadata, pkgdb listing) are total functions with no Panic branch. Tied to the crate each run by running every operation of every other property plus mutation fuzz (truncate, duplicate, splice, 19-40 digit numbers, NUL, non-UTF-8, 64 KiB lines, deep nesting) under catch_unwind and a process watchdog: PANIC/ABORT/HANG or any difference from the model is a violation.",
-        ref="§7 C17, §8 D3/D10/D11/D12", note=TB + " Known finding KF-C17-altdepth (>= ~10^4 brace groups overflow the stack) is listed in known_findings.json.",
+        text="PARTIAL (stack depth, memory, wall-clock are runtime effects). Every unwrap/expect/index/slice of the anchored code is a Panic branch of the model under the same guard and every data-dependent loop runs on fuel; Coq theorems show for EVERY input a value or a reported error - never Panic, never OutOfFuel - for the version tokeniser, Dewey::new, glob compile, Pattern::new, compile+match (recursive description, depth = number of '{', and the code's work-list loop, proved to refine it), best_match, Depend::new, pkg_summary parsing, all Summary call sequences and getters, PLIST entry and list parsing; the remaining models (distinfo, digest names, scanindex, metadata, pkgdb listing) are total functions with no Panic branch. Tied to the crate each run by running every operation of every other property plus mutation fuzz (truncate, duplicate, splice, 19-40 digit numbers, NUL, non-UTF-8, 64 KiB lines, deep nesting) under catch_unwind and a process watchdog: PANIC/ABORT/HANG or any difference from the model is a violation.",
+        ref="§7 C17, §8 D3/D10/D11/D12", note=TB + " The stack overflow on >= ~10^4 brace groups (D12) was repaired in /repo (e20d24a); no known finding is left for C17.",
         technique="Coq proof (totality of the models with explicit panic branches and fuel) + fuzzing differential correspondence under catch_unwind/watchdog"),
     "C19": dict(
         text="Coq theorems for ALL strings: PkgPath::new succeeds iff the path components (repeated/trailing slashes and non-leading '.' ignored) are [name,name] or ['..','..',name,name]; the short path then has components [a,b] and the full path ['..','..',a,b]; both spellings give equal values; re-parsing either accessor's output gives an equal value (uses the proved fact that '../../'+p adds two ParentDir components and that Normal components are ordinary names); Depend::new succeeds iff the argument splits at ':' into exactly two parts with valid pattern and path, exposing exactly those parts. Correspondence each run: EXHAUSTIVE over all '/'-joined sequences of <= 5 (thorough 6) segments from {'..','.','a','b',''} with/without leading '/', plus pattern x path x colon-count grids.",
